@@ -414,10 +414,11 @@ def run_source_check_merge(pid, tier, t0, items, rule, extra, rep0, bad0):
     """run_source_check, with violations already collected by rep0 merged into the result"""
     rc = run_source_check(pid, tier, t0, items, rule, dict(extra, static_violations=bad0))
     rc0 = rep0.finish()
-    if bad0 and os.environ.get("VERIF_NO_EVIDENCE") != "1":
+    if (bad0 or rep0.known) and os.environ.get("VERIF_NO_EVIDENCE") != "1":
         p = os.path.join(os.path.dirname(os.path.abspath(__file__)), "..", "evidence", pid + ".json")
         ev = json.load(open(p))
         ev["violations"] = ev.get("violations", 0) + bad0
+        ev["coverage"]["known_findings_hit"] = sorted(set(ev["coverage"].get("known_findings_hit", [])) | set(rep0.known))
         json.dump(ev, open(p, "w"), indent=1, sort_keys=True)
     return 1 if (rc or rc0) else 0
 
